@@ -216,5 +216,5 @@ func TestVerif_C14(t *testing.T) {
 		maxLen = 4
 	}
 	verifkit.Enumerate(k, t, fmt.Sprintf("pool-sequences<=%d", maxLen), true, c14Seqs(maxLen), prop)
-	verifkit.Rapid(k, t, "random-lists", k.N(4000, 200000), c14Gen, prop)
+	verifkit.Rapid(k, t, "random-lists", k.N(4000, 1000000), c14Gen, prop)
 }
